@@ -125,6 +125,26 @@ def run(chk):
               'E1 AsyncServer.stream / AsyncParmapper(thread) vs drv afifo')
     chk.cov.setdefault('suites', {})['E1 AsyncServer.stream/call vs Server.stream/call, AsyncParmapper(thread) vs Stream.parmap'] = \
         dict(cases=len(tres), by_kind={k: sum(1 for c in thr if c['kind'] == k) for k in ('srv_stream', 'srv_call', 'apmap_thread', 'pmap_async')})
+    # E1: AsyncServer over generated servlet trees (ensembles, switches, batching) with the adversarial
+    # identity allocator.  What Server answers is settled by C02 (`outs` of the tree); an AsyncServer
+    # whose answer leaves that set differs from its sync counterpart, so C02-tagged monitor hits on an
+    # AsyncServer run are C16 findings.
+    import scen_servlet
+    tcases = []
+    for _ in range(250 if chk.tier == 'quick' else 6000):
+        c = scen_servlet.gen_case(chk.rng, chk.tier, '')
+        c['asyncsrv'] = True
+        c['adversarial_id'] = True
+        tcases.append(c)
+    sres = chk.run_cases('scen_servlet', tcases, sched=True)
+    chk.account(scen_servlet, sres, 'E1-detsched+cooploop')
+    relabelled = []
+    for case, res in sres:
+        ms = [dict(m, prop='C16', rule='asyncserver-tree-' + m['rule']) for m in res.get('monitors', [])
+              if m['prop'] == 'C02' and m['rule'] in ('crosstalk', 'foreign-exception', 'two-outcomes', 'served-twice')]
+        relabelled.append((dict(case, kind='srv_tree'), dict(res, monitors=ms)))
+    chk.collect_monitors(relabelled, props, keyfn)
+    chk.cov.setdefault('suites', {})['E1 AsyncServer over generated servlet trees, adversarial id allocator (answers vs outs of the tree)'] = dict(cases=len(sres))
     for case, res in results:
         if scen.nontrivial(case, res) and case.get('pf') and not case.get('perm'):
             chk.sample(dict(case=case, events=res.get('events', [])[:60], out=res.get('out'), end=res.get('end'),
